@@ -362,8 +362,14 @@ int main(int argc, char** argv) {
     while (std::getline(in, line)) {
         if (line.empty() || line[0] == '#') continue;
         if (getenv("C11_NOFORK")) child_main(line, 1);      // debugging aid: run the (single) case in this process
-        std::string a = run_once(line, timeout_ms);
-        if (twice) { std::string b = run_once(line, timeout_ms); if (a != b) a = "NONDET first{" + a + "} second{" + b + "}"; }
+        // A run is a pure function of the case (virtual time); a child that produces nothing within the
+        // REAL-time limit is re-run (up to 2 more times) so that a stall of the machine is not mistaken for a
+        // hang of the code under test; a genuine hang/livelock hangs every time and is still reported.
+        auto run = [&]() { std::string r = run_once(line, timeout_ms);
+                           for (int k = 0; k < 2 && r.compare(0, 4, "HANG") == 0; k++) { fprintf(stderr, "[C11 harness] re-running after %s: %s\n", r.c_str(), line.c_str()); r = run_once(line, timeout_ms); }
+                           return r; };
+        std::string a = run();
+        if (twice) { std::string b = run(); if (a != b) a = "NONDET first{" + a + "} second{" + b + "}"; }
         printf("%s\n", a.c_str());
         fflush(stdout);
     }
